@@ -228,8 +228,12 @@ class InterfaceLDM3:
         self.logging.debug(
             "Deleting provider data from application id %d", data_provider.application_id)
         ldm_maintenance = self.ldm_service.ldm_maintenance
-        if ldm_maintenance.data_containers.exists("dataObjectID", data_provider.data_object_id):
-            ldm_maintenance.del_provider_data(ldm_maintenance.get_provider_data(data_provider.data_object_id))
+        # Delete by identifier, in one step: deleting "the record that looks like the stored one" removed
+        # a twin with a lower identifier, missed an object updated in between and let two concurrent
+        # deletes of one object both answer SUCCEED.
+        if ldm_maintenance.data_containers.exists(
+            "dataObjectID", data_provider.data_object_id
+        ) and ldm_maintenance.del_provider_data_by_id(data_provider.data_object_id):
             return DeleteDataProviderResp(
                 data_provider.application_id,
                 data_provider.data_object_id,
